@@ -277,6 +277,8 @@ var c11Progs = []c11Prog{
 	{Name: "global-counter-after-pcall", Src: `g=0 local n=0 while n < LIMIT do n=n+1 pcall(function() local j=0 while j < LIMIT do j=j+1 g=g+1 end end) g=g+1000 end emit(g)`},
 	{Name: "global-counter-after-resume", Src: `g=0 local n=0 while n < LIMIT do n=n+1 local co=coroutine.create(function() local j=0 while j < LIMIT do j=j+1 g=g+1 coroutine.yield() end end) coroutine.resume(co) g=g+1000 coroutine.resume(co) g=g+1000000 end emit(g)`},
 	{Name: "global-counter-handler", Src: `g=0 local n=0 while n < LIMIT do n=n+1 xpcall(function() g=g+1 error("x") end, function(e) g=g+10 return e end) g=g+100 end emit(g)`},
+	{Name: "co-child-outlives-creator", Src: `local n=0 while n < LIMIT do n=n+1 local b local a=coroutine.create(function() b=coroutine.wrap(function() local j=0 while j < LIMIT do j=j+1 emit("b",j) coroutine.yield(j) end end) return "a" end) emit(coroutine.resume(a)) emit(pcall(b)) emit(pcall(b)) end`},
+	{Name: "co-child-outlives-failed-wrapped-creator", Src: `local n=0 while n < LIMIT do n=n+1 local b local a=coroutine.wrap(function() b=coroutine.create(function() local j=0 while j < LIMIT do j=j+1 emit("b",j) coroutine.yield(j) end end) error("creator fails") end) emit(pcall(a)) emit(coroutine.resume(b)) emit(coroutine.resume(b)) emit(coroutine.status(b)) end`},
 	{Name: "worker-loop", Mode: "worker", Src: `local i=0 while i < LIMIT do i=i+1 emit(i) end`},
 	{Name: "worker-coroutines", Mode: "worker", Src: `local co=coroutine.wrap(function() local i=0 while i < LIMIT do i=i+1 emit("c",i) coroutine.yield(i) end end) local n=0 while n < LIMIT do n=n+1 emit(co()) local c2=coroutine.create(function() local j=0 while j < LIMIT do j=j+1 emit(j) end end) emit(coroutine.resume(c2)) end`},
 	{Name: "worker-pcall-retry", Mode: "worker", Src: `local n=0 while n < LIMIT do n=n+1 pcall(function() local j=0 while j < LIMIT do j=j+1 emit(j) end end) end`},
